@@ -382,10 +382,23 @@ class Runner:
                 self.validation_broken.append(str(e)); self.say('[validate] DISAGREEMENT (queries still run): ' + str(e)[:300].replace('\n', ' | '))
         self.say('[run] %s tier=%s: %d queries on %d workers' % (self.prop, self.tier, len(qs), self.jobs))
         qs_sorted = sorted(qs, key=lambda q: -q.timeout * (2 if q.kind == 'main' else 1))
-        with ThreadPoolExecutor(max_workers=self.jobs) as ex:
-            futs = {ex.submit(self.run_query, q): q for q in qs_sorted}
-            for f in as_completed(futs):
-                q = futs[f]; r = f.result()
+        # two-ended scheduling: most workers take the longest queries first (makespan), a quarter of them take the shortest first, so that
+        # cheap queries are never starved by expensive ones (a seeded defect can make every expensive query run into its timeout)
+        import collections, queue
+        dq = collections.deque(qs_sorted); dlock = threading.Lock(); resq = queue.Queue()
+        def worker(short):
+            while True:
+                with dlock:
+                    if not dq: return
+                    q = dq.pop() if short else dq.popleft()
+                try: resq.put((q, self.run_query(q), None))
+                except BaseException as e: resq.put((q, None, e))
+        nshort = max(1, self.jobs // 4) if len(qs_sorted) > self.jobs else 0
+        for i in range(self.jobs): threading.Thread(target=worker, args=(i < nshort,), daemon=True).start()
+        if True:
+            for _ in range(len(qs_sorted)):
+                q, r, e = resq.get()
+                if e is not None: raise e
                 if r['verdict'] != 'skipped':
                     self.say('  [%s] %-40s %-9s %6.1fs %s%s' % (q.kind, q.name, r['verdict'], r['wall_s'], ('%d MB' % r['rss_mb']) if r.get('rss_mb') else '',
                              ('  failed: ' + '; '.join(sorted(set(x['desc'] for x in r['failed']))[:3])) if r['failed'] and q.kind == 'main' else ''))
